@@ -1,7 +1,8 @@
 (* Correspondence for C02: one client session whose server is a scripted raw peer.
    input  (EV ...)
      EV = (sissue) | (sissuecut) | (sreply nCALL sCLS) | (swrongseq) | (sbad) | (slost) | (sclose)
-        | (sarm scaller|sreply) | (sdisarm scaller|sreply)
+        | (sarm scaller|scallerw|sreply) | (sdisarm scaller|scallerw|sreply)
+          (callerw = gate write.done: a caller parks after its socket write, still holding the call's mutex)
         CLS = ok | remote | undec | undec0 | hook | panic
      sbad  = malformed bytes on the stream (read error at that point of the stream)
      slost = cut / remote close (read error after everything sent before)
@@ -11,7 +12,10 @@ From Coq Require Import List Arith NArith ZArith Bool Lia.
 From Verif Require Import Base.Bytes Base.Val Model.Lifecycle Model.CallLife Model.Graceful.
 Import ListNotations.
 
-Record rs := mkRs { r_s : sess; r_q : list frame; r_armC : bool; r_armR : bool }.
+Record rs := mkRs0 { r_s : sess; r_q : list frame; r_armC : bool; r_armR : bool; r_armW : bool }.
+(* r_armW: gate write.done armed - a caller parks after its socket write, before AsyncCall returns *)
+Definition mkRsr (r0 : rs) (s : sess) (q : list frame) (c a : bool) : rs := mkRs0 s q c a (r_armW r0).
+Definition with_w (r : rs) (w : bool) : rs := mkRs0 (r_s r) (r_q r) (r_armC r) (r_armR r) w.
 
 Fixpoint first_some {A} (f : nat -> option A) (n : nat) : option A :=
   match n with
@@ -19,11 +23,15 @@ Fixpoint first_some {A} (f : nat -> option A) (n : nat) : option A :=
   | S k => match first_some f k with Some x => Some x | None => f k end
   end.
 
+(* the result of a write, fixed by the scripted connection *)
+Definition wr_of (s : sess) : wres := if negb (sock s) then WClosed else if conn s then WOk else WOther.
+
 Definition caller_free (r : rs) (i : nat) : option sess :=
   match nth_error (calls (r_s r)) i with
   | Some c => match c_a c with
-              | A1 => if r_armC r then None else caller_step (r_s r) i false (wr_choice (r_s r))
-              | _ => caller_step (r_s r) i false (wr_choice (r_s r))
+              | A1 => if r_armC r then None else caller_step (r_s r) i false (wr_of (r_s r))
+              | A4 => if r_armW r then None else caller_step (r_s r) i false (wr_of (r_s r))
+              | _ => caller_step (r_s r) i false (wr_of (r_s r))
               end
   | None => None
   end.
@@ -45,14 +53,14 @@ Definition fst_opt (o : option (sess * effect)) : option sess :=
 Definition one_move (r : rs) : option rs :=
   let s := r_s r in
   let n := length (calls s) in
-  let upd_s (s' : sess) := mkRs s' (r_q r) (r_armC r) (r_armR r) in
+  let upd_s (s' : sess) := mkRsr r s' (r_q r) (r_armC r) (r_armR r) in
   match first_some (caller_free r) n with
   | Some s' => Some (upd_s s')
   | None =>
   match first_some (reply_free r) n with
   | Some s' => Some (upd_s s')
   | None =>
-  match first_some (fun j => handler_step s j false (wr_choice s)) (length (hctxs s)) with
+  match first_some (fun j => handler_step s j false (wr_of s)) (length (hctxs s)) with
   | Some s' => Some (upd_s s')
   | None =>
   match fst_opt (closer_step s) with
@@ -69,7 +77,7 @@ Definition one_move (r : rs) : option rs :=
           if negb (sock s) then option_map upd_s (frame_step s FrErr)
           else match r_q r with
                | f :: q => match frame_step s f with
-                           | Some s' => Some (mkRs s' q (r_armC r) (r_armR r))
+                           | Some s' => Some (mkRsr r s' q (r_armC r) (r_armR r))
                            | None => None
                            end
                | [] => None
@@ -89,18 +97,18 @@ Definition fdec_of (v : val) : option fdec :=
   else if sym_eqb v "undec" then Some FErrC else if sym_eqb v "undec0" then Some FErr0
   else if sym_eqb v "hook" then Some FHook else if sym_eqb v "panic" then Some FPanic else None.
 
-Definition enq (r : rs) (f : frame) : rs := mkRs (r_s r) (r_q r ++ [f]) (r_armC r) (r_armR r).
+Definition enq (r : rs) (f : frame) : rs := mkRsr r (r_s r) (r_q r ++ [f]) (r_armC r) (r_armR r).
 
 Definition do_ev (r : rs) (ev : val) : option rs :=
   match ev with
   | VL [VS k] =>
-      if bytes_eqb k (str "issue") then Some (mkRs (issue (r_s r)) (r_q r) (r_armC r) (r_armR r))
+      if bytes_eqb k (str "issue") then Some (mkRsr r (issue (r_s r)) (r_q r) (r_armC r) (r_armR r))
       else if bytes_eqb k (str "issuecut") then
         (* the request write, if the status check admits it, is cut at some byte offset:
            it fails (not a closed-socket error) and the connection is gone *)
         let s0 := issue (r_s r) in
         let i := length (calls (r_s r)) in
-        if r_armC r then Some (mkRs s0 (r_q r) (r_armC r) (r_armR r))  (* parked before the write: the harness drops the cut *)
+        if r_armC r then Some (mkRsr r s0 (r_q r) (r_armC r) (r_armR r))  (* parked before the write: the harness drops the cut *)
         else
         match caller_step s0 i false WOk with
         | Some s1 =>
@@ -110,10 +118,10 @@ Definition do_ev (r : rs) (ev : val) : option rs :=
                 | Some c =>
                     match c_a c with
                     | A2w => match caller_step s2 i false WOther with
-                             | Some s3 => Some (mkRs (set_conn s3 false) (r_q r ++ [FrErr]) (r_armC r) (r_armR r))
+                             | Some s3 => Some (mkRsr r (set_conn s3 false) (r_q r ++ [FrErr]) (r_armC r) (r_armR r))
                              | None => None
                              end
-                    | _ => Some (mkRs s2 (r_q r) (r_armC r) (r_armR r))
+                    | _ => Some (mkRsr r s2 (r_q r) (r_armC r) (r_armR r))
                     end
                 | None => None
                 end
@@ -124,10 +132,10 @@ Definition do_ev (r : rs) (ev : val) : option rs :=
       else if bytes_eqb k (str "wrongseq") then Some (enq r (FrReply 1000 FOk))
       else if bytes_eqb k (str "bad") then Some (enq r FrErr)
       else if bytes_eqb k (str "lost") then
-        Some (mkRs (set_conn (r_s r) false) (r_q r ++ [FrErr]) (r_armC r) (r_armR r))
+        Some (mkRsr r (set_conn (r_s r) false) (r_q r ++ [FrErr]) (r_armC r) (r_armR r))
       else if bytes_eqb k (str "close") then
         match close_call (r_s r) with
-        | Some s' => Some (mkRs s' (r_q r) (r_armC r) (r_armR r))
+        | Some s' => Some (mkRsr r s' (r_q r) (r_armC r) (r_armR r))
         | None => Some r
         end
       else None
@@ -137,11 +145,13 @@ Definition do_ev (r : rs) (ev : val) : option rs :=
       else None
   | VL [VS k; w] =>
       if bytes_eqb k (str "arm") then
-        if sym_eqb w "caller" then Some (mkRs (r_s r) (r_q r) true (r_armR r))
-        else Some (mkRs (r_s r) (r_q r) (r_armC r) true)
+        if sym_eqb w "caller" then Some (mkRsr r (r_s r) (r_q r) true (r_armR r))
+        else if sym_eqb w "callerw" then Some (with_w r true)
+        else Some (mkRsr r (r_s r) (r_q r) (r_armC r) true)
       else if bytes_eqb k (str "disarm") then
-        if sym_eqb w "caller" then Some (mkRs (r_s r) (r_q r) false (r_armR r))
-        else Some (mkRs (r_s r) (r_q r) (r_armC r) false)
+        if sym_eqb w "caller" then Some (mkRsr r (r_s r) (r_q r) false (r_armR r))
+        else if sym_eqb w "callerw" then Some (with_w r false)
+        else Some (mkRsr r (r_s r) (r_q r) (r_armC r) false)
       else None
   | _ => None
   end.
@@ -201,7 +211,7 @@ Definition live0 : sess := mkSess Ok true true 0 0 0 0 [] [] R2 CIdle 0%N true 0
 
 Definition run (inp : val) : option val :=
   match inp with
-  | VL evs => option_map VL (run_evs 3000 (mkRs live0 [] false false) false evs)
+  | VL evs => option_map VL (run_evs 3000 (mkRs0 live0 [] false false false) false evs)
   | _ => None
   end.
 
